@@ -281,3 +281,19 @@ func panicKey(r interface{}) string {
 	}
 	return "panic " + fn + ": " + msg
 }
+
+// attachSecondary embeds the coverage summary of the SCHED part (run by ./check before this worker).
+func attachSecondary(r *ev.Run) {
+	path := os.Getenv("VERIF_SECONDARY")
+	if path == "" {
+		return
+	}
+	b, err := os.ReadFile(path)
+	if err != nil {
+		return
+	}
+	var m map[string]interface{}
+	if json.Unmarshal(b, &m) == nil {
+		r.Cov["sched_part"] = m
+	}
+}
